@@ -21,7 +21,7 @@ struct Info;
 namespace sim
 {
 enum TaskKind { TK_READER = 0, TK_SEARCH = 1 };
-enum TaskState { ST_READY = 0, ST_RUNNING, ST_WAIT_INPUT, ST_WAIT_LOCK, ST_DONE };
+enum TaskState { ST_READY = 0, ST_RUNNING, ST_WAIT_INPUT, ST_WAIT_LOCK, ST_DONE, ST_WAIT_MUTEX, ST_WAIT_COND, ST_SLEEP, ST_WAIT_JOIN };
 constexpr int MAX_TASKS = 64;
 
 struct Task
@@ -45,6 +45,13 @@ struct Task
     int watch_point = 0;
     int64_t watch_k = 0;
     bool trigger_fired = false;
+    // blocking primitives intercepted at link level (pthread mutex / condition variable / sleep / join)
+    const void* wait_obj = nullptr;     // mutex or condition variable the task waits for
+    bool cond_signalled = false;
+    int64_t wake_ns = -1;               // simulated deadline of a timed wait / sleep (-1: none)
+    int64_t mutex_epoch_seen = 0;
+    unsigned long pthread_id = 0;
+    int join_target = -1;
 };
 
 struct InfoRec
@@ -140,6 +147,7 @@ struct World
     int64_t seq = 0;
     int io_owner = -1;
     char gui_sync = 0;
+    int64_t mutex_epoch = 0;  // bumped by every pthread_mutex_unlock of a simulated task
 
     // GUI
     size_t pc = 0;
@@ -157,6 +165,7 @@ struct World
     bool poisoned = false;
     bool book_loaded_nonempty = false;
     std::string log_path;
+    std::string last_consumed;
 
     // scheduler
     Rng sched_rng, aux_rng;
@@ -218,6 +227,7 @@ struct World
 extern World* W;
 extern int64_t W_clock_reads;
 void clock_read_point();
+void resolve_real_sync();
 void poison_entry(World* w, uint64_t key, uint64_t eseed, const engine::Position* pos_for_plausible);
 std::string book_substitute(World* w, const std::string& line);
 void book_check_bestmove(World* w, GoRec& g);
